@@ -16,7 +16,7 @@ func runC18(e *env) {
 		"malformed SQL directives) then seeded synthesised modules mixing supported forms in unusual spellings with unsupported forms in every position; one evaluation = one (module, stage) pair for the 8 stages analysis + 7 generators; " +
 		"the recovered panic value decides: runtime.Error or a fatal error = crash; non-trivial = the module contains at least one odd spelling or unsupported form"
 	e.m.Extra = map[string]interface{}{"mismatch_means": "property"}
-	specs := corpusCrash()
+	specs := append(corpusCrash(), repoFixtures("repo-testsource-defs", "repo-testsource-other", "repo-sql-models")...)
 	n := 30
 	if e.thorough() {
 		n = 400
